@@ -647,7 +647,7 @@ CAST_METHODS = {"astype", "copy", "view"}
 CAST_FUNCS = {"asarray", "array", "ascontiguousarray", "asanyarray", "atleast_1d", "float64"}
 
 
-def strip_casts(node):
+def strip_casts(node, any_astype=False):
     """Remove value-preserving array casts/copies and collapse IfExp whose
     branches became identical: x.astype(f8) if c else x  ->  x."""
 
@@ -655,6 +655,12 @@ def strip_casts(node):
         def visit_Call(self, n):
             self.generic_visit(n)
             if isinstance(n.func, ast.Attribute) and n.func.attr in CAST_METHODS and not (dotted(n.func.value) or "").split(".")[0] in ("np", "numpy", "copy"):
+                if n.func.attr == "astype":
+                    # only a cast to double precision is value-preserving for the packed float64 arrays
+                    a = n.args[0] if n.args else None
+                    ok = a is not None and (canon(a) in ("np.float64", "numpy.float64", "float", "np.double") or str_const(a) in ("f8", "float64", "d", "<f8"))
+                    if not ok and not any_astype:
+                        return n
                 return n.func.value
             d = dotted(n.func) or ""
             if d.split(".")[-1] in CAST_FUNCS and d.split(".")[0] in ("np", "numpy") and n.args:
@@ -806,3 +812,23 @@ def inline_temporaries(expr, stmt, fn, depth=4, only=None):
         return T().visit(clone(e))
 
     return rec(expr, stmt, depth)
+
+
+def forwarding_gaps(caller_fn, callee_name, names):
+    """For every call of ``callee_name`` in caller_fn: which of ``names`` are NOT passed as name=name (or positionally as
+    the bare name)?  Returns [(call, missing names, wrong {name: expr})]."""
+    out = []
+    for c in calls_in(caller_fn):
+        if last_attr(c) != callee_name:
+            continue
+        passed = {k.arg: k.value for k in c.keywords if k.arg}
+        pos = {canon(a) for a in c.args}
+        missing, wrong = [], {}
+        for n in names:
+            if n in passed:
+                if canon(passed[n]) not in (n, "self." + n):
+                    wrong[n] = passed[n]
+            elif n not in pos and ("self." + n) not in pos:
+                missing.append(n)
+        out.append((c, missing, wrong))
+    return out
